@@ -60,7 +60,12 @@ Definition agree_applied (s : schema) (doc : node) (a : applied) : bool :=
   let st := ap_step a in
   sresult_eqb (apply s st doc) (ap_result a) &&
   list_eqb range_eqb (ranges (get_map s st)) (ap_map a) &&
-  res_eqb step_eqb (invert_step s st doc) (ap_invert a) &&
+  (* a slice of negative size (more open depth than content; nothing a well-formed peer builds) gives an inverse with
+     a negative position, which the model's nat positions cannot represent: the inverse is not compared then *)
+  (match st with
+   | SReplace _ _ sl _ | SReplaceAround _ _ _ _ sl _ _ => (slice_size s sl <? 0)%Z
+   | _ => false
+   end || res_eqb step_eqb (invert_step s st doc) (ap_invert a)) &&
   match ap_undo a, ap_result a, ap_invert a with
   | Some u, ROk d', Ok inv => sresult_eqb (apply s inv d') u
   | _, _, _ => true
